@@ -255,6 +255,11 @@ NoRes == <<"none">>
 (* package library is opened - or opened again - stays loaded.  Opening the *)
 (* package library installs a new, empty package.preload.  (The harness     *)
 (* puts package.path back afterwards.)  "base" only counts as opened.       *)
+(* Which table carries the library afterwards is luaL_register's choice:    *)
+(* package.loaded["package"] if it is a table - also one a custom searcher  *)
+(* loaded under that name after the entry was cleared - else the global,    *)
+(* else a new table.  Identity is modelled by loaded / glob as for any      *)
+(* other name; the observer has to follow the library into that table.      *)
 LibName(lib) == IF lib = "base" THEN "_G" ELSE lib
 Ready(st) == {"base", "package"} \subseteq st.opened
 OpenLib(st, lib) ==
